@@ -156,6 +156,29 @@ pub fn run(ctx: &Ctx) {
     let n = ctx.tier.pick(600_000, 8_000_000);
     ctx.par_proptest("random-trees", n, || gen::arb_typed(scfg.clone(), ValCfg::default()), |(s, v), l| check(s, v, l));
 
+    // counts at every varint length boundary up to four bytes (strings, byte arrays, sequences, maps, Display text)
+    {
+        let lens: Vec<usize> = vec![127, 128, 129, 16383, 16384, 16385, 20000, 32768, 40000, 65535, 65536, 2097151, 2097152, 2097153, 3000000, 4194303, 4194304];
+        let lens = &lens;
+        let kinds = 6usize;
+        ctx.par_range("long-counts", (lens.len() * kinds) as u64, move |i, l| {
+            let i = i as usize;
+            let n = lens[i % lens.len()];
+            let (s, v): (Shape, Value) = match i / lens.len() {
+                0 => (Shape::Str, Value::Str("s".repeat(n))),
+                1 => (Shape::ByteBuf, Value::Bytes(vec![0xC3; n])),
+                2 => (Shape::Seq(Box::new(Shape::Bool)), Value::List(vec![Value::Bool(true); n.min(300_000)])),
+                3 => (Shape::Seq(Box::new(Shape::Unit)), Value::List(vec![Value::Unit; n.min(300_000)])),
+                4 => (Shape::Map(Box::new(Shape::Unit), Box::new(Shape::U8)), Value::Map(vec![(Value::Unit, Value::U(1)); n.min(70_000)])),
+                _ => {
+                    let text = "d".repeat(n);
+                    (Shape::Tuple(vec![Shape::DisplayStr, Shape::U8]), Value::List(vec![Value::Pieces(text.as_bytes().chunks(4096).map(|c| String::from_utf8(c.to_vec()).unwrap()).collect()), Value::U(1)]))
+                }
+            };
+            l.class("long-count");
+            check(&s, &v, l)
+        });
+    }
     // integers of every width, stratified by bit length
     let n = ctx.tier.pick(800_000, 8_000_000);
     ctx.par_proptest(
